@@ -423,6 +423,10 @@ func runHistory(c *run.Ctx, h []attempt, cc configCase, pending int) {
 		if success {
 			successes++
 			online = true
+			if c.Rng.Intn(2) == 0 {
+				// an application that takes note of a new session clears the flag
+				cl.InNewSession.Store(false)
+			}
 			if d.ReadCount() > n0 {
 				last := reads[len(reads)-1]
 				if last.Err != nil {
